@@ -35,7 +35,7 @@ def calls(rng, n, uni):
             "tryget %s %d" % (L, rng.randrange(-1, n + 2)), "safeget %s %d" % (L, rng.randrange(-1, n + 2)),
             "safegetor %s %d %d" % (L, rng.randrange(-1, n + 2), 55), "last " + L]
     P = pairs(rng, rng.randrange(6), uni)
-    out += ["mclone " + P, "mclear " + P, "mkeys " + P, "mvalues " + P, "mkeyof %s %d" % (P, rng.randrange(uni)),
+    out += ["mclonenil", "mclone " + P, "mclear " + P, "mkeys " + P, "mvalues " + P, "mkeyof %s %d" % (P, rng.randrange(uni)),
             "mcontainsvalue %s %d" % (P, rng.randrange(uni)), "mhaskey %s %d" % (P, rng.randrange(uni))]
     return out
 
@@ -46,5 +46,11 @@ def explore(core, rng, tier, seed, search=False):
     for n in range(13):
         for _ in range(reps):
             scripts.append(calls(rng, n, rng.choice([3, 6, 20])))
-    nt = lambda sc: "," in sc[2]
+    # long inputs (beyond any small-input threshold): order-sensitive helpers on 129..600 elements
+    for n in ([129, 200, 600] if tier == "quick" else [129, 130, 257, 600, 3000]):
+        for uni in (40, 1000):
+            v = [rng.randrange(uni) for _ in range(n)]
+            L = "[" + ",".join(map(str, v)) + "]"
+            scripts.append(["distinct " + L, "distinctfunc %s 7" % L, "except %s [1,2,3]" % L, "groupby %s 5" % L, "countby %s 5" % L, "filter %s 3 1" % L, "map " + L])
+    nt = lambda sc: "," in sc[min(2, len(sc) - 1)]
     return scriptprop.explore(core, ID, scripts, nontrivial=nt)
